@@ -2,7 +2,7 @@
    Everything here is executable Gallina; no proofs. *)
 From Coq Require Import List NArith ZArith String Bool.
 Import ListNotations.
-From UV Require Import Py.Val Py.Regex Gen.Patterns Ural.TrieDict.
+From UV Require Import Py.Val Py.Str Py.Utf8 Py.Regex Py.UrlLib Gen.Patterns Ural.TrieDict Ural.Utils.
 Open Scope string_scope.
 
 Definition opt_wrap (o : option val) : val :=
@@ -77,10 +77,98 @@ Definition do_regex (arg : val) : val :=
   | _ => vbad
   end.
 
+(* ---------------- generic helpers ---------------- *)
+Definition vres {A} (f : A -> val) (r : res A) : val :=
+  match r with Ok a => f a | Exc e => VErr (exn_name e) end.
+
+Definition vN (n : N) : val := VZ (Z.of_N n).
+Definition vN_opt (o : option N) : val := match o with Some n => vN n | None => VNone end.
+Definition vstrs (l : list str) : val := VL (map VS l).
+
+Definition env_of (v : val) : env :=
+  match v with
+  | VL [VL idna; VL ip] =>
+      {| e_idna := flat_map (fun x => match x with VL [VS k; VS r] => [(k, r)] | _ => [] end) idna;
+         e_ip := flat_map (fun x => match x with VL [VS k; VB b] => [(k, b)] | _ => [] end) ip |}
+  | _ => env0
+  end.
+
+Definition vsplit (r : SplitResult) : val :=
+  VL [VS (scheme r); VS (netloc r); VS (path r); VS (query r); VS (fragment r)].
+
+Definition vsplit_full (r : SplitResult) : val :=
+  VL [VS (scheme r); VS (netloc r); VS (path r); VS (query r); VS (fragment r);
+      vstr_opt (username r); vstr_opt (password r); vstr_opt (hostname r); vres vN_opt (port r)].
+
+Definition vqsl (l : list qitem) : val :=
+  VL (map (fun it : qitem => VL [VS (fst it); vstr_opt (snd it)]) l).
+
+(* ---------------- urllib / str leaf functions ---------------- *)
+Definition do_urllib (arg : val) : val :=
+  match arg with
+  | VL [VS op; ev; VL args] =>
+      let e := env_of ev in
+      match args with
+      | [VS a] =>
+          if str_eqb op (lit "urlsplit") then vres vsplit_full (urlsplit e a)
+          else if str_eqb op (lit "unquote") then VS (unquote a)
+          else if str_eqb op (lit "quote") then VS (quote [47%N] a)
+          else if str_eqb op (lit "lower") then VS (lower a)
+          else if str_eqb op (lit "upper") then VS (upper a)
+          else if str_eqb op (lit "strip") then VS (strip a)
+          else if str_eqb op (lit "utf8") then VS (utf8 a)
+          else if str_eqb op (lit "decode_replace") then VS (decode_replace a)
+          else vbad
+      | [VS a; VS b] =>
+          if str_eqb op (lit "urljoin") then vres VS (urljoin e a b)
+          else if str_eqb op (lit "quote_safe") then VS (quote b a)
+          else if str_eqb op (lit "split") then vstrs (split b a)
+          else if str_eqb op (lit "replace") then VS (replace b [88%N; 89%N] a)
+          else vbad
+      | [VS a; VS b; VS c; VS d; VS f] =>
+          if str_eqb op (lit "urlunsplit")
+          then VS (urlunsplit {| scheme := a; netloc := b; path := c; query := d; fragment := f |})
+          else vbad
+      | _ => vbad
+      end
+  | _ => vbad
+  end.
+
+(* ---------------- ural.utils & co ---------------- *)
+Definition do_utils (arg : val) : val :=
+  match arg with
+  | VL [VS op; ev; VL args] =>
+      let e := env_of ev in
+      match args with
+      | [VS a] =>
+          if str_eqb op (lit "strip_protocol") then VS (strip_protocol a)
+          else if str_eqb op (lit "pathsplit") then vstrs (pathsplit a)
+          else if str_eqb op (lit "urlpathsplit") then vres vstrs (urlpathsplit e a)
+          else if str_eqb op (lit "normpath") then VS (normpath a)
+          else if str_eqb op (lit "decode_punycode_hostname") then vres VS (decode_punycode_hostname e a)
+          else if str_eqb op (lit "decode_punycode_parts") then vres vstrs (decode_punycode_parts e a)
+          else if str_eqb op (lit "fix_common_query_mistakes") then VS (fix_common_query_mistakes a)
+          else if str_eqb op (lit "safe_qsl_iter") then vqsl (safe_qsl_iter a)
+          else if str_eqb op (lit "qsl_roundtrip") then VS (safe_serialize_qsl (safe_qsl_iter a))
+          else if str_eqb op (lit "is_special_host") then VB (is_special_host a)
+          else if str_eqb op (lit "has_special_host") then vres VB (has_special_host e a)
+          else if str_eqb op (lit "safe_urlsplit") then vres vsplit_full (safe_urlsplit e a)
+          else vbad
+      | [VS a; VS b] =>
+          if str_eqb op (lit "ensure_protocol") then VS (ensure_protocol a b)
+          else if str_eqb op (lit "force_protocol") then VS (force_protocol a b)
+          else vbad
+      | _ => vbad
+      end
+  | _ => vbad
+  end.
+
 (* ---------------- dispatch ---------------- *)
 Definition table : list (str * (val -> val)) :=
   [ (lit "triedict", do_triedict);
-    (lit "regex", do_regex) ].
+    (lit "regex", do_regex);
+    (lit "urllib", do_urllib);
+    (lit "utils", do_utils) ].
 
 Fixpoint find_fn (name : str) (l : list (str * (val -> val))) : option (val -> val) :=
   match l with
